@@ -78,6 +78,12 @@ def Unit.energyRegen (u : Unit α) : α := u.regen + u.regenConv
 
 def find? (s : St α) (id : Int) : Option (Unit α) := s.units.find? (·.id == id)
 
+/-- toughness-damage bonus of the *source* of a stance modification (0 for unknown units) -/
+def stancePctOf (s : St α) (id : Int) : α :=
+  match find? s id with
+  | some u => u.stancePct
+  | none => 0
+
 def setUnit (s : St α) (u : Unit α) : St α :=
   { s with units := s.units.map fun v => if v.id == u.id then u else v }
 
@@ -179,7 +185,7 @@ def step (s : St α) : Op α → St α × List (Ev α)
   | .modStance id src amt =>
     match find? s id with
     | none => (s, [.errUnknownTarget])
-    | some u => setStanceU s u src (u.stance + amt * (1 + u.stancePct))
+    | some u => setStanceU s u src (u.stance + amt * (1 + stancePctOf s src))
   | .modSP src amt =>
     ({ s with sp := clampSP (s.sp + amt) },
      if s.sp == clampSP (s.sp + amt) then [] else [.spChange src s.sp (clampSP (s.sp + amt))])
